@@ -37,8 +37,8 @@ def main(tier, seed):
                  "the destructor / alloc / free callables run arbitrary Python code: everything shared is arbitrary "
                  "after such a call (callee havoc), except this frame's private locals (A-STACK), the engine's call "
                  "trace, and the allocator record (whole-TU scan obligation: written only by its owner)",
-                 "_my_PyErr_WriteUnraisable (prints the destructor's exception) is an assumed contract: leaves no "
-                 "exception pending; cdata_dealloc is an assumed contract (frees the object)",
+                 "_my_PyErr_WriteUnraisable (prints the destructor's exception) is under contract here: no exception is left "
+                 "pending whatever the printing does; cdata_dealloc is an assumed contract (frees the object)",
                  "the buffer protocol is an assumed contract: PyObject_GetBuffer success stores the exporter in "
                  "view->obj (alive and export-locked until PyBuffer_Release), PyBuffer_Release is idempotent through "
                  "view->obj = NULL",
